@@ -95,6 +95,7 @@ var selSwap = map[string]map[string]selShim{
 	},
 	"net/http": {
 		"Get": {shVenv, "HTTPGet"}, "Serve": {shVenv, "HTTPServe"}, "ListenAndServe": {shVenv, "HTTPListenAndServe"},
+		"ReadResponse": {shVenv, "HTTPReadResponse"},
 	},
 	"net/http/httputil": {
 		"NewSingleHostReverseProxy": {shVenv, ""},
